@@ -40,6 +40,13 @@ Theorem c06_refuted_odd_widths :
 Proof. split; reflexivity. Qed.
 Print Assumptions c06_refuted_odd_widths.
 
+(* an enum whose NAME begins with the letter i: is_signed() looks at the first letter of the type name, the enum counts as signed and
+   the generator raises KeyError('i') (finding c-enum-name-i); any other enum name is fine *)
+Theorem c06_refuted_enum_name_i :
+  kind_of (mkp "s"%string (SEnumRef "ignition") 0 1) = KKeyError /\ kind_of (mkp "s"%string (SEnumRef "Mode") 0 1) = KU 8.
+Proof. split; reflexivity. Qed.
+Print Assumptions c06_refuted_enum_name_i.
+
 (* an f32 behind a u8: 1.5f is shifted inside 32 bits; the frame word is not the layout packing and the signal decodes to another float *)
 Theorem c06_refuted_float_offset :
   let ps := [mkp "a"%string (SU 8) 0 8; mkp "f"%string SF32 8 32] in
